@@ -72,9 +72,11 @@ std::string first_diff(const std::string& a, const std::string& b)
     }
 }
 
-Model small_or_drawn_model(RunCtx& ctx, Rng& rng, GenCfg& cfg)
+Model small_or_drawn_model(RunCtx& ctx, Rng& rng, GenCfg& cfg, bool allow_dynamic)
 {
     cfg = draw_cfg(rng);
+    if (!allow_dynamic)
+        cfg.dynamic_templates = false;
     if (ctx.simplify & SIMP_SMALLMODEL) {
         cfg.max_templates = 1;
         cfg.max_locs = 2;
